@@ -945,7 +945,7 @@ class Gen:
         # and now anything at all
         for _ in range(self.rng.randint(1, 3)):
             nm = self.rng.choice(['slice', 'clip', 'index', 'iter', 'strip', 'rmfix', 'split', 'splitlines', 'partition', 'replace', 'clear', 'copy',
-                                  'case', 'pad', 'apply', 'remove', 'query', 'render', 'add', 'cut_tail_of'])
+                                  'case', 'pad', 'apply', 'remove', 'query', 'render', 'add', 'cut_tail_of', 'simplify', 'simplify'])
             if nm == 'cut_tail_of':
                 n = self.length(r)
                 self.do({'op': 'slice', 'r': r, 'start': self.rng.choice([None, 0, 1, 2]), 'stop': self.rng.choice([None, n, n - 1])})
@@ -1431,7 +1431,7 @@ PROFILES = {
     'C01': weights(render=0, render8=1.5, apply=4, remove=2, slice=1.5, add=1.5, iadd=1.5, copy=0.3, many_end=0.8, clear_over=0.8, astr_of_source=1.0),
     'C15': weights(render=0, render8=3, iadd=3.5, add=1, apply=3, remove=1.5, new=2, slice=1, clip=0.7, replace=0.7, pad=0.5,
                    simplify=0.4, copy=0.3, many_end=0.6, clear_over=0.6),
-    'C03': weights(render=0, reparse=1.2, simplify=1.2, apply=4, remove=2, parse_twice=0.8, many_end=1.0, clear_over=0.8),
+    'C03': weights(render=0, reparse=1.2, simplify=1.2, apply=4, remove=2, parse_twice=0.8, many_end=1.0, clear_over=0.8, esc_in_base=0.8),
     'C10': dict(new=1.5, case=2, pad=2, strip=2, rmfix=2, replace=2, expandtabs=1, split=2.5, splitlines=1.5, partition=2, query=8,
                 assign_str=0.5, apply=0.5, qmq=1.2, esc_in_base=1.0),
     'C11': dict(nonuniform=2.5, strip_enclosed=1.5, new=0.5, case=1.5, strip=2, rmfix=2, replace=3.5, expandtabs=1, split=3.5, splitlines=1.5,
